@@ -35,4 +35,4 @@ META = {
 }
 NOT_YET = {}
 # properties whose check is complete and registered
-ENABLED = {"C20", "C02", "C03"}
+ENABLED = {"C20", "C02", "C03", "C04", "C05", "C06", "C07"}
